@@ -272,8 +272,10 @@ func runC01(p *Prog, r *Report, tier string) {
 		}
 		r.Check(nLk == 2, "R-LAYOUT.field-specifier", fnKey(fr)+": registry lookup by (big-endian id bytes, enterprise number)", p.pos(fr.Pos()), "both branches", "the element id used for the registry lookup is not the big-endian value of the id bytes read from the wire", true)
 	}
-	// framing of the stream transports (C11's rules, imported)
+	// framing of the stream transports (C11's rules, imported) and unconditional template replacement (C04's rule)
 	checkFraming(p, r)
+	checkTemplateReplace(p, r)
+	checkInfoElementImmutable(p, r, "R-OWNER.info-element")
 	// (4) registry maps filled with the same pointer
 	if rg := p.Fn("pkg/registry.registerInfoElement"); rg != nil {
 		var ups []*ssa.MapUpdate
